@@ -58,69 +58,66 @@ func c04WhichDots(r *an.Run) {
 	ident := tokenConst(r, "IDENT")
 	// finder.ellipsis
 	if f := fn(r, augRel, "finder.ellipsis"); f != nil {
-		var dots *ssa.Alloc
-		for _, b := range f.Blocks {
-			for _, in := range b.Instrs {
-				if al, ok := in.(*ssa.Alloc); ok && strings.HasSuffix(an.ShortType(al.Type()), "augment.Dots") {
-					dots = al
-				}
-			}
-		}
-		if r.Check(dots != nil, short(f)+"|records-dots", f.Pos(), "ellipsis() records a Dots augmentation") {
-			var identTrue, sameTrue, identFalse []an.CtrlEdge
-			for _, c := range an.EqCases(f, func(v ssa.Value) bool { return strings.HasSuffix(an.Path(v), ".tok") && !isAddr(v) }) {
-				if k, ok := an.ConstInt(c.Key); ok && k == ident {
-					identTrue = append(identTrue, edgeTo(c.If.Block(), c.Target))
-					identFalse = append(identFalse, edgeTo(c.If.Block(), c.Else))
-				}
-			}
-			// sameLine: equality of two f.line(...) results
+		rec, dots := dotsRecordSite(f)
+		if r.Check(rec != nil && dots != nil, short(f)+"|records-dots", f.Pos(), "ellipsis() records a Dots augmentation") {
 			lineFn := r.P.Func(augRel, "finder.line")
-			for _, b := range f.Blocks {
-				iff, ok := b.Instrs[len(b.Instrs)-1].(*ssa.If)
-				if !ok {
-					continue
+			classify := func(c ssa.Value) string {
+				cmp, ok := c.(*ssa.BinOp)
+				if !ok || (cmp.Op != token.EQL && cmp.Op != token.NEQ) {
+					return ""
 				}
-				inner, pos := an.StripNot(iff.Cond)
-				cmp, ok := inner.(*ssa.BinOp)
-				if !ok || cmp.Op != token.EQL {
-					continue
+				name := ""
+				if strings.HasSuffix(an.Path(cmp.X), ".tok") {
+					if k, ok := an.ConstInt(cmp.Y); ok && k == ident {
+						name = "ident-follows"
+					}
 				}
 				x, xok := cmp.X.(*ssa.Call)
 				y, yok := cmp.Y.(*ssa.Call)
 				if xok && yok && an.StaticCallee(x) == lineFn && an.StaticCallee(y) == lineFn {
-					br := an.BranchOn{If: iff, Pos: pos}
-					sameTrue = append(sameTrue, an.CtrlEdge{Block: b, Succ: br.EdgeWhen(true)})
+					name = "same-line"
+				}
+				if name == "" {
+					return ""
+				}
+				if cmp.Op == token.NEQ {
+					return "not:" + name
+				}
+				return name
+			}
+			paths, err := an.EnumeratePaths(f, classify, nil, 64)
+			good := err == nil && len(paths) >= 2
+			for _, p := range paths {
+				get := func(a string) (bool, bool) {
+					if v, ok := p.Atoms[a]; ok {
+						return v, true
+					}
+					if v, ok := p.Atoms["not:"+a]; ok {
+						return !v, true
+					}
+					return false, false
+				}
+				id, idK := get("ident-follows")
+				sl, slK := get("same-line")
+				records := false
+				for _, b := range p.Blocks {
+					if b == rec.Block() {
+						records = true
+					}
+				}
+				both := idK && id && slK && sl
+				notBoth := (idK && !id) || (slK && !sl)
+				if !(both || notBoth) || records == both {
+					good = false
 				}
 			}
-			// Dots NOT recorded exactly when both atoms are true:
-			// (a) with the both-true conjunction forced impossible on either side, still reachable (it is not skipped more often)
-			// (b) the alloc is unreachable through ident-true ∧ same-true
-			good := len(identTrue) > 0 && len(sameTrue) > 0
-			if good {
-				// paths to the alloc: remove ident-false edges and same-line-false edges -> only the both-true paths remain -> must be unreachable
-				var sameFalse []an.CtrlEdge
-				for _, e := range sameTrue {
-					sameFalse = append(sameFalse, an.CtrlEdge{Block: e.Block, Succ: 1 - e.Succ})
-				}
-				onlyBothTrue := append(append([]an.CtrlEdge{}, identFalse...), sameFalse...)
-				good = unreachableWithout(dots.Block(), onlyBothTrue) &&
-					mustPassWithout(f.Blocks[0], dots.Block(), identTrue) && mustPassWithout(f.Blocks[0], dots.Block(), sameTrue)
-			}
-			r.Check(good, short(f)+"|decision", dots.Pos(), "an ellipsis is left alone exactly when an identifier follows on the same line; every other '...' becomes an elision")
+			r.Check(good, short(f)+"|decision", rec.Pos(), "an ellipsis is left alone exactly when an identifier follows on the same line; every other '...' becomes an elision (%d paths; %v)", len(paths), err)
 			c04DotsSpan(r, f, dots)
 		}
 	}
 	// finder.fieldList
 	if f := fn(r, augRel, "finder.fieldList"); f != nil {
-		var dots *ssa.Alloc
-		for _, b := range f.Blocks {
-			for _, in := range b.Instrs {
-				if al, ok := in.(*ssa.Alloc); ok && strings.HasSuffix(an.ShortType(al.Type()), "augment.Dots") {
-					dots = al
-				}
-			}
-		}
+		_, dots := dotsRecordSite(f)
 		if r.Check(dots != nil, short(f)+"|records-dots", f.Pos(), "fieldList() records Dots augmentations") {
 			c04DotsSpan(r, f, dots)
 		}
@@ -167,10 +164,27 @@ func c04WhichDots(r *an.Run) {
 	if f := fn(r, augRel, "rewrite"); f != nil {
 		n := 0
 		for _, c := range an.CallsTo(f, "(*bytes.Buffer).WriteString") {
-			s, ok := an.ConstString(c.Common().Args[1])
-			if !ok {
+			var strs []string
+			var collect func(v ssa.Value, depth int) bool
+			collect = func(v ssa.Value, depth int) bool {
+				if s, ok := an.ConstString(v); ok {
+					strs = append(strs, s)
+					return true
+				}
+				if phi, ok := v.(*ssa.Phi); ok && depth < 4 {
+					for _, e := range phi.Edges {
+						if !collect(e, depth+1) {
+							return false
+						}
+					}
+					return true
+				}
+				return false
+			}
+			if !collect(c.Common().Args[1], 0) || len(strs) == 0 {
 				continue
 			}
+			s := strs[0]
 			// is this write in the Dots arm? (dominated by a successful type assertion to *Dots)
 			inDots := false
 			for _, b := range f.Blocks {
@@ -189,9 +203,12 @@ func c04WhichDots(r *an.Run) {
 				}
 			}
 			if inDots {
-				n++
-				r.Check(len(s) == 3, short(f)+"|placeholder|"+s, c.Pos(), "the placeholder %q written for a '...' is exactly 3 bytes long (positions after it stay valid without adjustment)", s)
+				for _, s := range strs {
+					n++
+					r.Check(len(s) == 3, short(f)+"|placeholder|"+s, c.Pos(), "the placeholder %q written for a '...' is exactly 3 bytes long (positions after it stay valid without adjustment)", s)
+				}
 			}
+			_ = s
 		}
 		r.Count("elision placeholders", n)
 		r.Min("elision placeholders", 2)
@@ -653,8 +670,22 @@ func c04Reproduction(r *an.Run) {
 	if !r.Check(run != nil, short(f)+"|run-appended", sl.If.Pos(), "the recorded run is appended to the rebuilt list") {
 		return
 	}
-	whole := strings.HasSuffix(an.Path(run.Call.Args[1]), ".Items")
-	r.Check(whole, short(f)+"|run-whole", run.Pos(), "the run is appended whole (s.Items...), in its original order")
+	// what is appended is what lookupSliceDotsSkipped returned for this '...' (possibly kept in a local table in between)
+	whole := false
+	for v := range an.BackSlice(run.Call.Args[1], an.SliceOpts{ThroughCalls: true, ThroughMemory: true}) {
+		if ex, ok := v.(*ssa.Extract); ok && ex.Index == 0 {
+			if c, ok := ex.Tuple.(*ssa.Call); ok && an.StaticCallee(c) == r.P.Func(engine, "lookupSliceDotsSkipped") {
+				whole = true
+			}
+		}
+		if _, isSub := v.(*ssa.Slice); isSub {
+			if al, ok := v.(*ssa.Slice).X.(*ssa.Alloc); !ok || al.Comment != "varargs" {
+				whole = false
+				break
+			}
+		}
+	}
+	r.Check(whole, short(f)+"|run-whole", run.Pos(), "the run appended is the one lookupSliceDotsSkipped returned, whole and in its original order")
 	// control dependences of the append inside the sections loop: only the index bound test
 	for _, cd := range r.P.AllCtrlDeps(run.Block()) {
 		if !sl.Loop.Blocks[cd.Block] || cd.Block == sl.Loop.Header {
@@ -662,10 +693,18 @@ func c04Reproduction(r *an.Run) {
 		}
 		iff := cd.Block.Instrs[len(cd.Block.Instrs)-1].(*ssa.If)
 		cmp, ok := iff.Cond.(*ssa.BinOp)
-		bound := ok && cmp.Op == token.LSS && cmp.X == sl.Index
-		if bound {
-			c, isLen := cmp.Y.(*ssa.Call)
-			bound = isLen && an.IsCallTo(c, "builtin:len")
+		bound := false
+		if ok {
+			isLen := func(v ssa.Value) bool {
+				c, isCall := v.(*ssa.Call)
+				return isCall && an.IsCallTo(c, "builtin:len")
+			}
+			switch cmp.Op {
+			case token.LSS, token.GEQ: // i < len / i >= len
+				bound = cmp.X == sl.Index && isLen(cmp.Y)
+			case token.GTR, token.LEQ: // len > i / len <= i
+				bound = cmp.Y == sl.Index && isLen(cmp.X)
+			}
 		}
 		// inner loop headers (the loop over the section's replacers) are fine
 		inner := false
@@ -875,4 +914,32 @@ func mustPassWithout(from, through *ssa.BasicBlock, removed []an.CtrlEdge) bool 
 		// a block all of whose out-edges were removed is a dead end created by the removal, not an exit
 	}
 	return true
+}
+
+// dotsRecordSite finds where f records an elision: the instruction in f that
+// creates it (an allocation of augment.Dots, or a call to a private helper
+// that builds one) and the allocation itself (possibly inside the helper).
+func dotsRecordSite(f *ssa.Function) (site ssa.Instruction, alloc *ssa.Alloc) {
+	isDots := func(al *ssa.Alloc) bool { return strings.HasSuffix(an.ShortType(al.Type()), "augment.Dots") }
+	for _, b := range f.Blocks {
+		for _, in := range b.Instrs {
+			if al, ok := in.(*ssa.Alloc); ok && isDots(al) {
+				return al, al
+			}
+		}
+	}
+	for _, c := range an.Calls(f) {
+		h := an.StaticCallee(c)
+		if h == nil || !an.InModule(h) || h.Blocks == nil || h.Signature.Results().Len() != 1 || !strings.HasSuffix(an.ShortType(h.Signature.Results().At(0).Type()), "augment.Dots") {
+			continue
+		}
+		for _, b := range h.Blocks {
+			for _, in := range b.Instrs {
+				if al, ok := in.(*ssa.Alloc); ok && isDots(al) {
+					return c, al
+				}
+			}
+		}
+	}
+	return nil, nil
 }
